@@ -39,6 +39,11 @@ func finish(c *Ctx, s *Sess, nontrivial bool) {
 // C01: component data integrity across every structural change.
 func caseC01(c *Ctx) {
 	cfg := GenCfg(c.R, 0)
+	if c.Case%7 == 3 && len(cfg.Types) < maskBits() {
+		// one component type larger than a memory page
+		cfg.Types = append(cfg.Types, fmt.Sprintf("B%d", c.Case))
+		cfg.Used = append(cfg.Used, len(cfg.Types)-1)
+	}
 	p := DefaultProfile()
 	p.Steps = 160
 	p.Scale(2, "Add", "Remove", "Exchange", "Assign", "RelSet", "RelExchange", "BuilderAdd", "RemoveEntity", "Set", "WritePtr")
